@@ -134,7 +134,7 @@ def gen_gm(seed, tier, focus):
     ops += [["permitted"], ["query", ch.bytes(W, "si-final", 16).hex()]]
     return {"engine": "gmsim", "seed": seed, "focus": focus,
             "cfg": {"nservers": nservers, "ngm": ngm, "servers": servers, "clients": clients, "k": k, "n": n, "happy": 1,
-                    "net": {"lat_profile": ch.pick("config", "lat", ["uniform", "heavy", "fifo"]), "jitter": 0.3}},
+                    "net": {"threads": ch.pick("config", "threads", ["sync", "sync", "async"]), "lat_profile": ch.pick("config", "lat", ["uniform", "heavy", "fifo"]), "jitter": 0.3}},
             "ops": ops, "faults": []}
 
 
